@@ -49,6 +49,34 @@ def cases(tier, seed):
         else:
             c = GC.rand_circuit(rng, nq=rng.randint(2, 6))
         yield {"kind": "circ", "circ": c, "origin": "random"}
+    # permutation sections mixed with independent work on other qubits
+    for i in range(200 if tier == "quick" else 2500):
+        nq = rng.randint(3, 5)
+        a, b = rng.sample(range(nq), 2)
+        sw = [["cx", [a, b], None], ["cx", [b, a], None], ["cx", [a, b], None]]
+        others = [q for q in range(nq) if q not in (a, b)]
+        extra = []
+        for _ in range(rng.randint(1, 3)):
+            r = rng.random()
+            if r < 0.5 or len(others) < 2:
+                extra.append(["x", [rng.choice(others)], None])
+            elif r < 0.8:
+                extra.append(["cx", rng.sample(others, 2), None])
+            else:
+                extra.append(["cx", [rng.choice([a, b]), rng.choice(others)], None])
+        gl = list(sw)
+        for g in extra:
+            gl.insert(rng.randint(0, len(gl)), g)
+        if rng.random() < 0.3:
+            gl = [["h", [rng.randrange(nq)], None]] + gl + [["h", [rng.randrange(nq)], None]]
+        yield {"kind": "circ", "circ": {"nq": nq, "gates": gl}, "origin": "permutation+"}
+    # small scope, exhaustive: every circuit of <=4 gates over {X, CX, CCX} on 3 qubits
+    import itertools
+
+    atoms = [["x", [q], None] for q in range(3)] + [["cx", [a, b], None] for a, b in itertools.permutations(range(3), 2)] + [["ccx", [c for c in range(3) if c != t] + [t], None] for t in range(3)]
+    for L in range(1, 5):
+        for combo in itertools.product(atoms, repeat=L):
+            yield {"kind": "circ", "circ": {"nq": 3, "gates": [list(g) for g in combo]}, "origin": "enum4"}
     from ..gen import programs as P
 
     pg = P.PG(rng, P.small_cfg(max_bits=4, depth=2, stmts=1))
